@@ -18,7 +18,7 @@ ID = "C14"
 LEVEL = "exploration"
 RULE = (
     "case = (real tree under dest over names {a,b,ab} colliding with the components of src/dest, depth<=3, <=5 entries; "
-    "src/dest spelling absolute or relative (cwd=base); str or bytes; src possibly empty).  All such trees are enumerated "
+    "src/dest spelling absolute, relative (cwd=base), './x', 'x/../y', or with a doubled separator; str or bytes; src possibly empty).  All such trees are enumerated "
     "(quick: strided), plus random larger trees.  Non-trivial iff >=2 descendants and some relative path repeats a component "
     "of the destination path; distinct by (tree, spelling, type)."
 )
@@ -98,6 +98,15 @@ def judge(b: Batch, base, tree, spelling, as_bytes, empty_src, comp):
         if spelling == "rel":
             os.chdir(base)
             src, dest = srcn, destn
+        elif spelling == "dot":
+            os.chdir(base)
+            src, dest = "./" + srcn, "./" + destn
+        elif spelling == "dotdot":
+            os.chdir(base)
+            os.makedirs(os.path.join(base, "x"), exist_ok=True)
+            src, dest = "x/../" + srcn, "x/../" + destn
+        elif spelling == "slashes":
+            src, dest = base + "//" + srcn, base + "//" + destn
         else:
             src, dest = os.path.join(base, srcn), dest_abs
         if empty_src:
@@ -167,7 +176,7 @@ def plan(tier, seed, jobs):
     if tier == "quick":
         k = 32
         for off in range(k):
-            specs.append({"kind": "enum", "stride": k * 4, "offset": (seed + off * 4) % (k * 4), "budget_s": 60})
+            specs.append({"kind": "enum", "stride": k * 10, "offset": (seed + off * 10) % (k * 10), "budget_s": 60})
         for j in range(8):
             specs.append({"kind": "random", "n": 60, "seed": seed, "j": j, "budget_s": 40})
     else:
@@ -194,7 +203,7 @@ def run_batch(spec):
             trees = all_trees()
             idx = -1
             for tree in trees:
-                for spelling, as_bytes, comp in itertools.product(("abs", "rel"), (False, True), COMPS):
+                for spelling, as_bytes, comp in itertools.product(("abs", "rel", "dot", "dotdot", "slashes"), (False, True), COMPS):
                     idx += 1
                     if idx % spec["stride"] != spec["offset"]:
                         continue
@@ -223,7 +232,7 @@ def run_batch(spec):
                     tree.add((p, isd))
                     if isd:
                         dirs.append(p)
-                judge(b, base, frozenset(tree), r.choice(["abs", "rel"]), r.random() < 0.4, r.random() < 0.15, r.choice(COMPS))
+                judge(b, base, frozenset(tree), r.choice(["abs", "rel", "dot", "dotdot", "slashes"]), r.random() < 0.4, r.random() < 0.15, r.choice(COMPS))
         elif spec["kind"] == "one":
             judge(b, base, frozenset((p, d) for p, d in spec["tree"]), spec["spelling"], spec["bytes"], spec["empty_src"], tuple(spec["comp"]))
     finally:
